@@ -549,7 +549,7 @@ def py_cyclic(p, rng) -> Optional[Tuple[Dict[int, Dict[str, Any]], List[str]]]:
     finder = Finder()
     sys.meta_path.insert(0, finder)
     try:
-        for od in orders[:24]:
+        for od in orders[:12]:
             purge()
             status.clear()
             try:
